@@ -28,7 +28,9 @@ import gen_c15 as G
 PROP = "C17"
 RULE = ("seeded random single-cell inputs: common bin table (1-3 chromosomes, fixed/variable bins, <=12 bins) x 1-5 distinct cell names from a grammar "
         "(letters, digits, spaces, punctuation, no '/', no '::') x arbitrary incl. empty pixel tables x {single bin table, single bin table with extra "
-        "columns, per-cell bin tables with per-cell extra columns}, plus a fixed corpus; non-trivial = at least two cells with different pixel tables; distinct by input hash")
+        "columns, per-cell bin tables with per-cell extra columns} x optional parameters in 60% of the cases (dtypes: count as float64 with fractional dyadic values / int64 beyond int32, "
+        "an extra pixel value column through columns+dtypes, h5opts, mode a/w incl. a collection already in the file, symmetric_upper=False cells, chunk-iterator input, check flags), every cell compared "
+        "value by value and dtype by dtype, plus a fixed corpus; non-trivial = at least two cells with different pixel tables; distinct by input hash")
 TRUSTED = ["h5py raw reads and object addresses are the observation channel for stored content and sharing"]
 ASSUMPTIONS = ["cell names are valid HDF5 link names without '/' and without the URI separator '::' (DESIGN section 8)",
                "pixel tables are sorted by (bin1_id, bin2_id), the documented precondition of create_scool"]
@@ -330,7 +332,14 @@ def oracle(case, r):
         return [{"what": "create_scool raised", "outcome": r["outcome"]}]
     names = case["order"]
     exp_list = sorted(["/cells/" + n for n in names], key=natkey)
-    if r["listing"] != ["Ok", exp_list]:
+    foreign = bool((case.get("opts") or {}).get("pre")) and (case.get("opts") or {}).get("mode") == "a"
+    if foreign:
+        # a plain collection put into the file beforehand (outside the property's quantifier) is reported by
+        # list_scool_cells as well: only require the given cells, in order
+        got_l = [r["listing"][0], [p_ for p_ in r["listing"][1] if p_ != "/other"]]
+    else:
+        got_l = r["listing"]
+    if got_l != ["Ok", exp_list]:
         bad.append({"what": "list_scool_cells", "got": r["listing"], "expected": exp_list})
     if r["is_scool"] is not True:
         bad.append({"what": "is_scool_file", "got": r["is_scool"]})
